@@ -430,22 +430,46 @@ def run_mutants(units):
             jobs.append((name, m))
     summary, undecided = [], []
 
+    # several properties list the same unit: a mutant verdict is a function of the assembled (mutated) text, so it is cached by the
+    # hash of that text (build/mutant_cache.json) - the same text is never sent to the verifier twice
+    cache_path = os.path.join(BUILD, 'mutant_cache.json')
+    try:
+        cache = json.load(open(cache_path))
+    except Exception:
+        cache = {}
+    import threading
+    lock = threading.Lock()
+
     def one(job):
         name, m = job
         try:
+            unit = A.load_unit(name)
+            asm = A.assemble(unit, mutate=(m['item'], m['pattern'], m['repl']))
+            key = hashlib.sha256((asm.text + '|' + str(unit.get('rlimit')) + str(unit.get('verus_args'))).encode()).hexdigest()
+            with lock:
+                c = cache.get(key)
+            if c is not None:
+                return name, m, c['failed'], c['undecided'], None
             ur = run_unit(name, mutate=(m['item'], m['pattern'], m['repl']), tag='mut_' + m['name'])
         except Undecided as e:
-            return name, m, None, str(e)
-        return name, m, ur, None
+            return name, m, None, None, str(e)
+        failed = [o.name for o in ur.res.failed]
+        with lock:
+            cache[key] = {'failed': failed, 'undecided': ur.res.undecided[:2], 'unit': name, 'mutant': m['name']}
+        return name, m, failed, ur.res.undecided[:2], None
     with cf.ThreadPoolExecutor(max_workers=6) as ex:
-        for name, m, ur, err in ex.map(one, jobs):
+        for name, m, failed, und_m, err in ex.map(one, jobs):
             if err:
                 undecided.append('mutant %s/%s: %s' % (name, m['name'], err)); continue
-            failed = [o.name for o in ur.res.failed]
             hit = [f for f in failed if re.search(m['expect'], f)]
             summary.append({'unit': name, 'mutant': m['name'], 'killed_by': hit[:3], 'all_failed': len(failed)})
             if not hit:
-                undecided.append('mutant %s/%s survived (contract too weak): failed=%s undecided=%s' % (name, m['name'], failed[:3], ur.res.undecided[:2]))
+                undecided.append('mutant %s/%s survived (contract too weak): failed=%s undecided=%s' % (name, m['name'], failed[:3], und_m))
+    try:
+        os.makedirs(BUILD, exist_ok=True)
+        json.dump(cache, open(cache_path, 'w'))
+    except Exception:
+        pass
     return {'summary': summary, 'undecided': undecided}
 
 
